@@ -41,8 +41,8 @@ CLAIMED.update({
 
 CLAIMED.update({
     "C01": dict(cat="other", design="DESIGN.md §4 C01",
-                text="Inductive step on a symbolic heap (M2): a bounded inventory of real Operation/Block/Region/SSAValue/Use objects is wired by symbolic references constrained only by the representation invariant (doubly linked acyclic op/block lists, parent pointers, intrusive use lists matching operand/successor slots, argument/result indices); each public mutation entry point (Block/Region/Operation/SSAValue/OpOperands/Rewriter, 32 calls) runs on a symbolic receiver and symbolic arguments and z3 decides that the invariant holds in the post-state for EVERY valid pre-state. Covers edit histories of any length within the inventory bound.",
-                note="Trusted: z3, the invariant formula in vx/checks/c01.py, the SymRef heap model (vx/symheap.py). Bounds: 3 ops (2/1/0 operand slots, one successor slot, one owned region), 2 blocks, 2 regions quick; 4 ops/3 blocks thorough. Outside: state left by calls that raise, nested erasure, Operation.drop_all_references alone, PatternRewriter wrappers."),
+                text="Inductive step on a symbolic heap (M2): a bounded inventory of real Operation/Block/Region/SSAValue/Use objects is wired by symbolic references constrained only by the representation invariant (doubly linked acyclic op/block lists, parent pointers, intrusive use lists matching operand/successor slots, argument/result indices); each public mutation entry point (Block/Region/Operation/SSAValue/OpOperands/Rewriter, 38 calls incl. erasing an op with a two-block region) runs on a symbolic receiver and symbolic arguments and z3 decides that the invariant holds in the post-state for EVERY valid pre-state. Covers edit histories of any length within the inventory bound.",
+                note="Trusted: z3, the invariant formula in vx/checks/c01.py, the SymRef heap model (vx/symheap.py). Bounds: 3 ops (2/1/0 operand slots, one successor slot, one owned region), 2 blocks, 2 regions quick; 4 ops/3 blocks thorough. Outside: state left by calls that raise, nested erasure beyond the pinned two-block shape, Operation.drop_all_references alone, PatternRewriter wrappers."),
 })
 
 CLAIMED.update({
